@@ -94,6 +94,13 @@ fn plant_extras(fs: &mut SimFs, t: &mut Tape, dir: &str, extras: &mut Vec<Extra>
             fs.inode_mut(ino).mtime = now - 5 * HOUR;
             extras.push(Extra { path: p, is_dir: true, mtime: 0, kind: "tempdir" });
         }
+        // a temporary directory nobody created or removed anything in for
+        // hours (its own mtime is old) may still hold files that are being
+        // written to: the age of a file is its own
+        if t.draw(2) == 0 {
+            let ino = fs.lookup(&td).unwrap();
+            fs.inode_mut(ino).mtime = now - 3 * HOUR;
+        }
     }
 }
 
